@@ -12,12 +12,21 @@
 (*   Range(s, v)   stores the caller's (fresh) list, rescale               *)
 (*   Clamp(s, b)   rescale                                                 *)
 (*   Nice(s, m)    rewrites s's domain list IN PLACE, rescale of s only    *)
+(*   RangeAgain(s, v)  the caller edits, in place, the list object the scale *)
+(*                 holds as its range (the one it passed earlier, or the one *)
+(*                 the getter returned) and passes the SAME object again:    *)
+(*                 the setter must rescale (RescaleOnSameList = TRUE; an     *)
+(*                 early exit "nothing changed" on identity would be FALSE)  *)
+(*   DomainAgain(s, v) the same for the domain: the getter's list edited and *)
+(*                 passed back; the setter builds a new list from it         *)
+(*   FailedDomain(s)   domain() with an argument that is no pair of numbers  *)
+(*                 raises before anything is stored: nothing changes         *)
 (*   Copy(s)       new scale; ShareListsOnCopy = TRUE passes the very same *)
 (*                 lists on (pinned tree), FALSE copies them               *)
 (***************************************************************************)
 EXTENDS Integers, Sequences, FiniteSets, TLC
 
-CONSTANTS MaxScales, MaxLen, ShareListsOnCopy, KeepCallersList, Doms, Rngs, NiceMs
+CONSTANTS MaxScales, MaxLen, ShareListsOnCopy, KeepCallersList, RescaleOnSameList, Doms, Rngs, NiceMs
 
 VARIABLES scales,   \* sequence of [dom, rng : cell ids, clamp, snap : <<domain content, range content, clamp>>]
           cells,    \* sequence of contents (cell id = index)
@@ -50,6 +59,13 @@ DomainFrom(s, t) == /\ s # t
 Range(s, v) == /\ cells' = Append(cells, <<v>>)
                /\ scales' = [scales EXCEPT ![s] = Rescaled([@ EXCEPT !.rng = Len(cells) + 1], cells')]
                /\ actor' = s /\ Log("R", s, v)
+RangeAgain(s, v) == /\ cells' = [cells EXCEPT ![scales[s].rng] = <<v>>]
+                    /\ scales' = IF RescaleOnSameList THEN [scales EXCEPT ![s] = Rescaled(@, cells')] ELSE scales
+                    /\ actor' = s /\ Log("E", s, v)
+DomainAgain(s, v) == /\ cells' = Append([cells EXCEPT ![scales[s].dom] = <<v>>], <<v>>)
+                     /\ scales' = [scales EXCEPT ![s] = Rescaled([@ EXCEPT !.dom = Len(cells) + 1], cells')]
+                     /\ actor' = s /\ Log("G", s, v)
+FailedDomain(s) == /\ UNCHANGED <<scales, cells>> /\ actor' = s /\ Log("X", s, "")
 Clamp(s, b) == /\ scales' = [scales EXCEPT ![s] = Rescaled([@ EXCEPT !.clamp = b], cells)]
                /\ UNCHANGED cells /\ actor' = s /\ Log("K", s, IF b THEN "1" ELSE "0")
 \* nice() computes the rounded end points and writes them into the SAME list object
@@ -72,6 +88,9 @@ Next == /\ Len(h) < MaxLen
              \/ \E m \in NiceMs : Nice(s, m)
              \/ Copy(s)
              \/ \E t \in 1..NS : DomainFrom(s, t)
+             \/ \E v \in Rngs : RangeAgain(s, v)
+             \/ \E v \in Doms : DomainAgain(s, v)
+             \/ FailedDomain(s)
 Spec == Init /\ [][Next]_vars
 
 \* ---- what a caller observes of scale s
